@@ -48,6 +48,11 @@ enum Ev {
     AddrsPushed { peer: usize, items: Vec<usize> },
     AddrsReceived { peer: usize, conn: u64, entries: Vec<Ann> },
     Dial { item: usize },
+    /// the node announced its own store on this connection; `genuine` = its head is the certified chain's block
+    NodeAnnounced { peer: usize, first: u64, last: Option<u64>, genuine: bool },
+    /// a peer asked the node for block `n`; `in_range` = inside the range the node had announced to this peer before the call;
+    /// outcome: 0 = served the certified block, 1 = served something else, 2 = answered "not available", 3 = no answer (error)
+    AskedNode { peer: usize, n: u64, in_range: bool, outcome: u8 },
 }
 
 struct Item {
@@ -84,6 +89,8 @@ struct Probe {
     conn: AtomicU64,
     lies: Vec<Lie>,
     rng: Mutex<StdRng>,
+    /// the range the node announced last on the current connection
+    node_state: Mutex<Option<(u64, Option<u64>)>>,
 }
 
 #[async_trait::async_trait]
@@ -128,7 +135,15 @@ impl verif::GossipProbe for Probe {
         self.sh.ev(Ev::Answered { peer: self.peer, n, lie });
         Ok(resp)
     }
-    async fn push_block_store_state(&self, _ctx: &ctx::Ctx, _state: BlockStoreState) -> anyhow::Result<()> {
+    async fn push_block_store_state(&self, _ctx: &ctx::Ctx, state: BlockStoreState) -> anyhow::Result<()> {
+        let last = state.last.as_ref().map(|l| l.number().0);
+        let genuine = match (&state.last, last.and_then(|n| self.sh.block(n))) {
+            (None, _) => true,
+            (Some(l), Some(b)) => *l == Last::from(b),
+            (Some(_), None) => false,
+        };
+        *self.node_state.lock().unwrap() = Some((state.first.0, last));
+        self.sh.ev(Ev::NodeAnnounced { peer: self.peer, first: state.first.0, last, genuine });
         Ok(())
     }
     async fn push_validator_addrs(&self, _ctx: &ctx::Ctx, addrs: Vec<Ann>) -> anyhow::Result<()> {
@@ -247,7 +262,7 @@ fn run_case(rep: &mut Report, args: &Args, case: u64, rt: &tokio::runtime::Runti
             }
             // raw peers
             for p in 0..npeers {
-                let probe = Arc::new(Probe { sh: sh.clone(), peer: p, conn: AtomicU64::new(0), lies: lies[p].clone(), rng: Mutex::new(rng_for(seed, p as u64, 131, 0)) });
+                let probe = Arc::new(Probe { sh: sh.clone(), peer: p, conn: AtomicU64::new(0), lies: lies[p].clone(), rng: Mutex::new(rng_for(seed, p as u64, 131, 0)), node_state: Mutex::default() });
                 let mut ro = rng_for(seed, p as u64, 132, 0);
                 s.spawn_bg(async move {
                     let mut conn = 0u64;
@@ -263,6 +278,7 @@ fn run_case(rep: &mut Report, args: &Args, case: u64, rt: &tokio::runtime::Runti
                             continue;
                         }
                         conn += 1;
+                        *probe.node_state.lock().unwrap() = None;
                         probe.conn.store(conn, Ordering::SeqCst);
                         sh.ev(Ev::Connected { peer: p, conn });
                         let clients = verif::GossipClients::new(ctx);
@@ -298,6 +314,21 @@ fn run_case(rep: &mut Report, args: &Args, case: u64, rt: &tokio::runtime::Runti
                                     sh.ev(Ev::Announced { peer: p, conn, first: lo, last: l });
                                     let c = ctx.with_timeout(time::Duration::seconds(2));
                                     let _ = clients.push_block_store_state(&c, sh.state(lo, l)).await;
+                                } else if r.gen_bool(0.5) {
+                                    // the peer asks the NODE for a block: mostly one the node has announced to it, sometimes around
+                                    let st = *probe.node_state.lock().unwrap();
+                                    let n = match st {
+                                        Some((f, Some(l))) if r.gen_bool(0.8) => r.gen_range(f..=l),
+                                        _ => (first + r.gen_range(0..(last - first + 4))).saturating_sub(2),
+                                    };
+                                    let in_range = matches!(st, Some((f, Some(l))) if f <= n && n <= l);
+                                    let c = ctx.with_timeout(time::Duration::seconds(2));
+                                    let outcome = match clients.get_block(&c, validator::BlockNumber(n), 10_000_000).await {
+                                        Ok(Some(b)) => if sh.block(n) == Some(&b) { 0 } else { 1 },
+                                        Ok(None) => 2,
+                                        Err(_) => 3,
+                                    };
+                                    sh.ev(Ev::AskedNode { peer: p, n, in_range, outcome });
                                 } else if r.gen_bool(0.4) && !items.is_empty() {
                                     let k = r.gen_range(1..=3usize);
                                     let picks: Vec<usize> = (0..k).map(|_| r.gen_range(0..items.len())).collect();
@@ -448,6 +479,33 @@ fn run_case(rep: &mut Report, args: &Args, case: u64, rt: &tokio::runtime::Runti
     if prop == "C08" {
         for d in store_violations.lock().unwrap().iter().take(2) {
             rep.violation("node-store-differs-from-certified-chain||node".to_string(), d.clone(), replay.clone());
+        }
+    }
+    // ---- C08: what the node reports as available, it serves - and only the certified chain
+    for (_, e) in &log {
+        match e {
+            Ev::NodeAnnounced { peer, first: f, last: l, genuine } => {
+                rep.count("store_states_announced_by_the_node");
+                if !genuine && prop == "C08" {
+                    rep.violation("node-announced-a-head-that-is-not-the-certified-block||node".to_string(), format!("the node announced [{f}, {l:?}] to peer {peer} with a head that is not the certified block of that number"), replay.clone());
+                }
+            }
+            Ev::AskedNode { peer, n, in_range, outcome } => {
+                rep.count("blocks_requested_from_the_node");
+                match outcome {
+                    0 => rep.count("blocks_served_by_the_node"),
+                    1 if prop == "C08" => rep.violation("node-served-a-block-that-is-not-the-certified-one||node".to_string(), format!("peer {peer} asked the node for block {n} and got a different block than the certified one"), replay.clone()),
+                    2 if *in_range => {
+                        rep.count("announced_blocks_answered_not_available");
+                        if prop == "C08" {
+                            rep.violation("announced-block-not-served||node".to_string(), format!("the node had announced a range containing block {n} to peer {peer} (nothing is ever pruned here) but answered that it does not have it"), replay.clone());
+                        }
+                    }
+                    2 => rep.count("unannounced_blocks_answered_not_available"),
+                    _ => rep.count("block_requests_to_the_node_without_answer"),
+                }
+            }
+            _ => {}
         }
     }
     // ---- C18: dials and gossip
